@@ -14,7 +14,7 @@ M = [
  ("col_not_reset", "src/encoder.rs", "      self.current_column = 0;\n", "", {"C12": "V"}),
  # ---- breaking: decoder ----
  ("dec_col_not_reset", "src/decoder.rs", "          self.current_data[0] = 0;\n", "", {"C12": "V"}),
- ("dec_emit_3_fields", "src/decoder.rs", "          1 => return Some(mapping),", "          1 | 3 => return Some(mapping),", {"C12": "V"}),
+ ("dec_emit_3_fields", "src/decoder.rs", "          1 => return Some(mapping),", "          1 | 3 => return Some(mapping),", {"C12": "P2"}),  # changes behaviour only on 3-field segments, which are outside the v3 grammar C12 quantifies over: the contract (stated over all strings) fails, no in-domain witness exists -> undecided
  ("dec_table_typo", "src/decoder.rs", "    52,  53,  54,  55,  56,  57,  58,  59,  60,  61, ERR, SEM,", "    52,  53,  54,  55,  56,  57,  58,  59,  61,  60, ERR, SEM,", {"C12": "V"}),
  ("dec_guard_removed", "src/decoder.rs", "        if self.current_value_pos < 64 {\n          self.current_value |= (value as i64) << self.current_value_pos;\n        }", "        self.current_value |= (value as i64) << self.current_value_pos;", {"C17": "V"}),
  ("dec_line_wrap", "src/decoder.rs", "          self.generated_line += 1;", "          self.generated_line += 2;", {"C12": "V", "C17": "P2"}),  # C17: the proof fails (line counter may overflow) but a witness needs a 2 GiB string -> undecided
